@@ -523,6 +523,24 @@ Walk:
 					copyWithResize(c.tsrParams, c.params)
 				}
 			}
+			// Tsr recommendation: add an extra trailing slash (got an exact match)
+			// If the path match completely /foo, we may end up in an intermediary node which is not a leaf, but
+			// which has a leaf child for the single trailing slash.
+			// /foo
+			//	  / [leaf=/foo/]
+			//	  x [leaf=/foox]
+			if !tsr && charsMatched == len(path) && charsMatchedInNodeFound == len(current.key) && !strings.HasSuffix(path, "/") {
+				if idx := linearSearch(current.childKeys, slashDelim); idx >= 0 {
+					if child := current.children[idx]; child.isLeaf() && len(child.key) == 1 {
+						tsr = true
+						n = child
+						// Save also a copy of the matched params, it should not allocate anything in most case.
+						if !lazy {
+							copyWithResize(c.tsrParams, c.params)
+						}
+					}
+				}
+			}
 		}
 
 		goto Backtrack
